@@ -76,7 +76,10 @@ Definition violations_pipe (k : pipecase) : list N :=
    else if p_addonly c
    then (if forallb (fun i => implb (act (o_src k) i) (act (o_tgt k) i)) (seq 0 n)
          then [50] else [51])
-   else if p_flat c then (if c_busydel r then [20] else [21])
+   else if p_flat c
+   then (if fst (c_lossy r) then [22]
+         else if snd (c_lossy r) then [23]
+         else if c_busydel r then [20] else [21])
    else if c_reord r then [10]
    else if fst (c_lossy r) then [11]
    else if snd (c_lossy r) then [14]
